@@ -18,7 +18,13 @@ VERIF = os.path.dirname(os.path.dirname(os.path.abspath(__file__)))
 
 
 def _apply(tmp, edits):
-    for rel, old, new in edits:
+    for item in edits:
+        if item[0] == '@patch':
+            r = subprocess.run(['patch', '-p1', '-s', '-f', '-d', tmp, '-i', item[1]], capture_output=True, text=True)
+            if r.returncode != 0:
+                return f'patch {os.path.basename(os.path.dirname(item[1]))} does not apply any more'
+            continue
+        rel, old, new = item
         p = os.path.join(tmp, rel)
         if not os.path.exists(p):
             return f'{rel} missing'
@@ -58,6 +64,12 @@ def jobs_for(props, all_props):
     for vid, rel, old, new in corpus.REWRITES:
         edits = [(rel, old, new)] + list(corpus.REWRITE_EXTRA.get(vid, []))
         jobs.append((vid, edits, list(props)))
+    rdir = os.path.join(VERIF, 'rewrites')
+    if os.path.isdir(rdir):
+        for d in sorted(os.listdir(rdir)):
+            pf = os.path.join(rdir, d, 'patch.diff')
+            if os.path.exists(pf):
+                jobs.append((f'rw-patch-{d}', [('@patch', pf)], list(props)))
     for vid, rel, old, new, expect in corpus.MUTANTS:
         ps = [p for p in expect if p in props]
         if ps:
